@@ -4,7 +4,7 @@
 WT=$1
 OUT=/verif/.cache/suite-$(basename $WT).xml
 mkdir -p /verif/.cache
-cd $WT && env -u BASILISP_VERIF_SIM PYTHONPATH=$WT/src /venv/bin/python -m pytest -q -p no:cacheprovider --timeout=900 --continue-on-collection-errors -n ${2:-6} --junitxml=$OUT > /verif/.cache/suite-$(basename $WT).log 2>&1
+cd $WT && env -u BASILISP_VERIF_SIM PYTHONPATH=$WT/src /venv/bin/python -m pytest -q -p no:cacheprovider --timeout=900 --continue-on-collection-errors --junitxml=$OUT > /verif/.cache/suite-$(basename $WT).log 2>&1
 /venv/bin/python - $OUT <<'PY'
 import json, sys, xml.etree.ElementTree as ET
 want = set(json.load(open('/root/.vp/BASELINE.json'))['stable_pass'])
